@@ -1,43 +1,8 @@
 (* C01 — Fejer's second rule as coded (series truncated at nsum-1 terms) and with the full series *)
 From Coq Require Import Reals Arith Lia Lra Bool.
-From P Require Import C01_gen C01_model C01_proofs_sums C01_proofs_trig C01_proofs_fejer1.
+From Coquelicot Require Import Coquelicot.
+From P Require Import C01_gen C01_model C01_proofs_sums C01_proofs_trig C01_proofs_poly.
 Open Scope R_scope.
-
-Lemma pick_odd T a (gam : nat -> R) c :
-  rsum T (fun jj => gam jj * (if (2 * jj + 1 =? a)%nat then c else 0))
-  = if (Nat.odd a && (a / 2 <? T))%nat then gam (a / 2)%nat * c else 0.
-Proof.
-  destruct (Nat.Even_or_Odd a) as [[i ->]|[i ->]].
-  - replace (Nat.odd (2 * i)) with false by (rewrite Nat.odd_mul; reflexivity). cbn [andb].
-    apply rsum_zero. intros jj _. destruct (Nat.eqb_spec (2 * jj + 1) (2 * i)); [lia|ring].
-  - replace ((2 * i + 1) / 2)%nat with i by (apply Nat.div_unique with 1%nat; lia).
-    replace (Nat.odd (2 * i + 1)) with true by (rewrite Nat.odd_add, Nat.odd_mul; reflexivity). cbn [andb].
-    rewrite (rsum_ext T _ (fun jj => if (jj =? i)%nat then gam jj * c else 0)).
-    2:{ intros jj _. destruct (Nat.eqb_spec (2 * jj + 1) (2 * i + 1)); destruct (Nat.eqb_spec jj i); try lia; ring. }
-    destruct (Nat.ltb_spec i T) as [HT|HT].
-    + apply (rsum_pick T i (fun jj => gam jj * c)). exact HT.
-    + apply rsum_pick_none. exact HT.
-Qed.
-
-Lemma f2_theta_eq n i : f2_theta n i = eq_theta (S n) (S i).
-Proof. unfold f2_theta, eq_theta. rewrite !S_INR. reflexivity. Qed.
-
-(* sine orthogonality at the open nodes k PI/(n+1), k = 1..n *)
-Lemma f2_sin_orth n a b : (1 <= b)%nat -> (a + b < 2 * (n + 1))%nat ->
-  rsum n (fun i => sin (INR a * f2_theta n i) * sin (INR b * f2_theta n i)) = if (a =? b)%nat then INR (S n) / 2 else 0.
-Proof.
-  intros Hb Hab.
-  set (G := fun k => sin (INR a * eq_theta (S n) k) * sin (INR b * eq_theta (S n) k)).
-  rewrite (rsum_ext n _ (fun i => G (S i))) by (intros; unfold G; rewrite f2_theta_eq; reflexivity).
-  replace (rsum n (fun i => G (S i))) with (rsum (S n) G - G O) by (rewrite rsum_S_first; ring).
-  assert (Z : G O = 0).
-  { unfold G, eq_theta. simpl INR at 2 4. unfold Rdiv. rewrite !Rmult_0_r, !Rmult_0_l, !Rmult_0_r, sin_0. ring. }
-  rewrite Z, Rminus_0_r. unfold G.
-  destruct a as [|a].
-  - rewrite rsum_zero; [|intros; simpl INR; rewrite Rmult_0_l, sin_0; ring].
-    destruct (Nat.eqb_spec 0 b); [lia|reflexivity].
-  - apply eq_sum_sin_sin_sym; lia.
-Qed.
 
 Definition f2_w (T n i : nat) : R := 4 * sin (f2_theta n i) * f2_wi T n i / (INR n + 1).
 Definition f2_gam (jj : nat) : R := 1 / INR (2 * jj + 1).
@@ -215,3 +180,20 @@ Qed.
 (* hypotheses of fejer2_exact_partial_lemma are satisfiable on a non-trivial instance: n = 7, T_2 *)
 Example fejer2_hyp_sat : (1 <= 7)%nat /\ (2 <= 7 - 1)%nat /\ (Nat.even 2 = false \/ 2 / 2 < f2_nsum 7 - 1)%nat.
 Proof. split; [lia|]. split; [lia|]. right. unfold f2_nsum. simpl. lia. Qed.
+
+Lemma fejer2_fixed_poly_thm n f : (1 <= n)%nat -> pspan (n - 1) f ->
+  is_RInt f (-1) 1 (rsum n (fun k => wts_FejerSecond_full n k * f (pts_FejerSecond n k))).
+Proof. intros Hn Hf. apply (quad_exact_on_span n (n - 1)); [|exact Hf]. intros m Hm. apply fejer2_fixed_exact_lemma; assumption. Qed.
+
+(* the code's Fejer-2 rule: every polynomial of degree <= 2*(nsum-1) - 1 *)
+Lemma fejer2_exact_poly_partial_thm n f : (1 <= n)%nat ->
+  pspan (2 * (f2_nsum n - 1) - 1)%nat f -> (1 <= f2_nsum n - 1)%nat ->
+  is_RInt f (-1) 1 (rsum n (fun k => wts_FejerSecond n k * f (pts_FejerSecond n k))).
+Proof.
+  intros Hn Hf HT. apply (quad_exact_on_span n (2 * (f2_nsum n - 1) - 1)%nat); [|exact Hf].
+  assert (HN : (2 * f2_nsum n <= n + 1)%nat) by (unfold f2_nsum; pose proof (Nat.mul_div_le (n + 1) 2); lia).
+  intros m Hm. apply fejer2_exact_partial_lemma; [exact Hn|lia|].
+  destruct (Nat.even m) eqn:Hev; [right|left; reflexivity].
+  apply Nat.even_spec in Hev. destruct Hev as [i ->]. rewrite (Nat.mul_comm 2 i), Nat.div_mul by lia. lia.
+Qed.
+
